@@ -356,6 +356,20 @@ def pickBest (m : Mesh) (byNs : List (String × Svc)) (cfgNs : String) : String 
   | some s => s.ns
   | none => ""
 
+/-! ### aliases must obey the exportTo of the ExternalName service they stand for -/
+
+/-- the alias names an indexed service that is visible to `ns` -/
+def aliasKept (m : Mesh) (svcs : List Svc) (ns : String) (a : String × String) : Bool :=
+  match lookupHN svcs a.2 a.1 with
+  | some t => isServiceVisible m t ns
+  | none => false
+
+/-- `PushContext.trimHiddenAlias` (`guard = false`: behaviour before the repair, aliases untouched) -/
+def trimHiddenAlias (guard : Bool) (m : Mesh) (svcs : List Svc) (ns : String) (s : Svc) : Svc :=
+  if !guard then s else
+  let visible := s.aliases.filter (aliasKept m svcs ns)
+  if visible.length == s.aliases.length then s else { s with aliases := visible }
+
 /-! ### the scope -/
 
 structure Listener where
@@ -374,6 +388,7 @@ structure Flags where
   enhanced : Bool := true     -- ENABLE_ENHANCED_DESTINATIONRULE_MERGE
   visGuard : Bool := true     -- the repaired `collectImportedServices` (false: behaviour before the fix)
   exactGuard : Bool := true   -- the repaired `servicesForExactHosts` (false: behaviour before the fix)
+  aliasGuard : Bool := true   -- aliases hidden from the proxy namespace are dropped (false: before the fix)
 deriving Repr, Inhabited
 
 structure ILW where
@@ -390,7 +405,7 @@ def convertListener (f : Flags) (m : Mesh) (svcs : List Svc) (vss : List VS) (cf
                else servicesExportedToNamespace m svcs cfgNs
   { matchPort := l.matchPort, hosts := ps,
     vss := selectVirtualServices f.unified m vss cfgNs ps,
-    services := selectServices f.unified cfgNs ps l.matchPort cands }
+    services := selectServices f.unified cfgNs ps l.matchPort (cands.map (trimHiddenAlias f.aliasGuard m svcs cfgNs)) }
 
 /-- the service a VirtualService destination host resolves to in `collectImportedServices`
     (before port trimming). -/
@@ -407,7 +422,7 @@ def resolveDest (f : Flags) (m : Mesh) (svcs : List Svc) (cfgNs : String) (h : S
 /-- one VirtualService destination in `collectImportedServices` -/
 def addVSDest (f : Flags) (m : Mesh) (svcs : List Svc) (cfgNs : String) (mp : Option Nat)
     (acc : List Svc) (d : String × List Nat) : List Svc :=
-  match resolveDest f m svcs cfgNs d.1 with
+  match (resolveDest f m svcs cfgNs d.1).map (trimHiddenAlias f.aliasGuard m svcs cfgNs) with
   | none => acc
   | some s =>
     match (match mp with
@@ -449,8 +464,8 @@ def scopeServices (f : Flags) (m : Mesh) (svcs : List Svc) (vss : List VS) (sc :
   collectImportedServices f m svcs cfgNs (scopeListeners f m svcs vss sc cfgNs)
 
 /-- `SidecarScope.services` of `DefaultSidecarScopeForGateway` -/
-def gatewayScopeServices (m : Mesh) (svcs : List Svc) (cfgNs : String) : List Svc :=
-  (servicesExportedToNamespace m svcs cfgNs).foldl appendSvc []
+def gatewayScopeServices (aliasGuard : Bool) (m : Mesh) (svcs : List Svc) (cfgNs : String) : List Svc :=
+  ((servicesExportedToNamespace m svcs cfgNs).map (trimHiddenAlias aliasGuard m svcs cfgNs)).foldl appendSvc []
 
 /-- `PushContext.VirtualServicesForGateway(ns, mesh)` (the gateway default scope's listener) -/
 def gatewayVirtualServices (m : Mesh) (vss : List VS) (ns : String) : List VS :=
